@@ -518,3 +518,132 @@ def deep_values(an, v, depth=3):
             if pre is not None and a[0] in ("ref", "unsize", "ptrcast"):
                 out += deep_values(an, pre, depth - 1)
     return out
+
+
+def eval_expr(v, is_x, x):
+    """numeric value of a symbolic expression when the values satisfying is_x are x (None if it depends on anything else);
+    Some(e) / None aggregates evaluate to ("Some", value) / ("None",)"""
+    if not isinstance(v, tuple) or not v:
+        return None
+    if is_x(v):
+        return x
+    t = v[0]
+    if t == "const":
+        return v[1]
+    if t == "cast":
+        return eval_expr(v[-1], is_x, x)
+    if t == "not":
+        r = eval_expr(v[1], is_x, x)
+        return None if r is None else (not r)
+    if t == "bin":
+        a, b = eval_expr(v[2], is_x, x), eval_expr(v[3], is_x, x)
+        if a is None or b is None or isinstance(a, tuple) or isinstance(b, tuple):
+            return None
+        try:
+            return {"Eq": a == b, "Ne": a != b, "Lt": a < b, "Le": a <= b, "Gt": a > b, "Ge": a >= b,
+                    "Add": int(a) + int(b), "Sub": int(a) - int(b), "Mul": int(a) * int(b),
+                    "Shl": int(a) << int(b), "Shr": int(a) >> int(b),
+                    "BitAnd": int(a) & int(b), "BitOr": int(a) | int(b), "BitXor": int(a) ^ int(b)}.get(v[1])
+        except Exception:
+            return None
+    if t == "agg" and isinstance(v[1], str):
+        if v[1].endswith(":None"):
+            return ("None",)
+        if v[1].endswith(":Some") and v[2]:
+            r = eval_expr(v[2][0], is_x, x)
+            return None if r is None else ("Some", r)
+        if v[1].endswith(":Err"):
+            return ("Err",)
+        if v[1].endswith(":Ok") and v[2]:
+            r = eval_expr(v[2][0], is_x, x)
+            return None if r is None else ("Ok", r)
+    if t == "call" and v[1].endswith("from_residual"):
+        return ("Err",)
+    return None
+
+
+def eval_fn_scalar_all(S_, fn, is_x, x, limit=4000):
+    """the values fn can return when its scalar input is x, over every path whose decided conditions agree with x
+    (conditions that depend on anything else are followed both ways); entries that could not be evaluated are None"""
+    an = S_.E.an(fn)
+    cfg = an.cfg
+    out = set()
+    stack = [(cfg.entry, ())]
+    steps = 0
+    while stack and steps < limit:
+        steps += 1
+        node, path = stack.pop()
+        if len(path) > 300:
+            continue
+        info = an.term.get(node)
+        if info is None:
+            continue
+        if info["kind"] == "return":
+            st = an.state_before_term(node)
+            v = an.read(st, ("local", 0))
+            if contains_value(v, lambda y: y[0] == "phi"):
+                v = S_.value_on_path(fn, list(path), v)
+            out.add(eval_expr(v, is_x, x))
+            continue
+        outs = cfg.out_edges[node]
+        if info["kind"] == "switch":
+            D = info["discr"]
+            if contains_value(D, lambda y: y[0] == "phi"):
+                D = S_.value_on_path(fn, list(path), D)
+            val = eval_expr(D, is_x, x)
+            if val is not None and not isinstance(val, tuple):
+                val = int(val)
+                sel = [e for e in outs if e.label[0] == "switch" and e.label[1] == val] or \
+                    [e for e in outs if e.label[0] == "otherwise" and val not in e.label[1]]
+                outs = sel
+        for e in outs:
+            if e.node in path:
+                continue
+            stack.append((e.dst, path + (e.node,)))
+    return out
+
+
+def eval_fn_scalar(S_, fn, is_x, x, limit=400):
+    """the value fn returns when its scalar input (the values satisfying is_x) is x: the CFG is walked taking only the
+    branches its conditions decide; None when a condition or the result depends on anything else"""
+    an = S_.E.an(fn)
+    cfg = an.cfg
+    node = cfg.entry
+    path = []
+    for _ in range(limit):
+        info = an.term.get(node)
+        if info is None:
+            return None
+        if info["kind"] == "return":
+            st = an.state_before_term(node)
+            v = an.read(st, ("local", 0))
+            if contains_value(v, lambda y: y[0] == "phi"):
+                v = S_.value_on_path(fn, path, v)
+            return eval_expr(v, is_x, x)
+        if info["kind"] == "switch":
+            D = info["discr"]
+            if contains_value(D, lambda y: y[0] == "phi"):
+                D = S_.value_on_path(fn, path, D)
+            val = eval_expr(D, is_x, x)
+            if val is None or isinstance(val, tuple):
+                return None
+            val = int(val)
+            nxt = None
+            for e in cfg.out_edges[node]:
+                if e.label[0] == "switch" and e.label[1] == val:
+                    nxt = e
+            if nxt is None:
+                for e in cfg.out_edges[node]:
+                    if e.label[0] == "otherwise" and val not in e.label[1]:
+                        nxt = e
+            if nxt is None:
+                return None
+            path.append(nxt.node)
+            node = nxt.dst
+            continue
+        outs = cfg.out_edges[node]
+        if len(outs) != 1:
+            return None
+        path.append(outs[0].node)
+        node = outs[0].dst
+    return None
